@@ -695,6 +695,11 @@ class World(BaseWorld):
             self.counters.update(be.stats)
             return "failed"
         except Exception as err:
+            if op["plan"].get("fail_at") and be.calls >= op["plan"]["fail_at"]:
+                # the injected failure, wrapped in another exception class: it was not swallowed
+                self.counters.update(be.stats)
+                self.note("F4p_failure_propagated_wrapped")
+                return "failed"
             raise self.vio("backend-exception", "Sum.eval(backend) raised %s: %s" % (
                 type(err).__name__, str(err)[:200]))
         self.counters.update(be.stats)
